@@ -315,7 +315,7 @@ def main():
     thorough = ck.tier == "thorough"
     rng = random.Random(ck.seed)
     records, n = [], 0
-    nsig = 1500 if thorough else 160
+    nsig = 6000 if thorough else 600
     for _ in range(nsig):
         sig = gen_sig(rng)
         ctx = rng.choice(["function", "function", "method", "classmethod", "staticmethod"])
